@@ -97,6 +97,16 @@ def large_ternary_cases(rng, tier):
             b2 = bdd_sx(big_random_bdd(rng, nv))
             cases.append(["ite", sm(), bs, b2])
             cases.append(["tern", partial_table3(rng, random_conn3(rng)), bs, sm(), b2])
+    # an operand above 2^20 nodes (pointers need 21 bits): X == Y over two blocks of 19 variables (1,572,863 nodes) in the
+    # third position, a lone switch variable between the blocks in the second, a constant / literal in the first; the
+    # connective (a & b) ^ c in lazy form, so that every task runs down to the terminals of all three operands
+    n = 19
+    eqb, nv3 = bdd_sx(block_equality_bdd(n)), 2 * n + 1
+    switch = bdd_sx([(nv3, 0, 0), (nv3, 1, 1), (n, 0, 1)])
+    first = [bdd_sx([(nv3, 0, 0), (nv3, 1, 1)]), bdd_sx([(nv3, 0, 0), (nv3, 1, 1), (0, 0, 1)]), bdd_sx([(nv3, 0, 0), (nv3, 1, 1), (0, 1, 0)])]
+    and_xor = tuple(bool((a & b) ^ c) for a in (0, 1) for b in (0, 1) for c in (0, 1))
+    for a in (first[:1] if tier == "quick" else first):
+        cases.append(["tern", partial_table3(rng, and_xor, eagerness=0.0), a, switch, eqb])
     # medium triples: fast engine in the normal run, reference engine in the engine cross-check
     for _ in range(2 if tier == "quick" else 20):
         mv = rng.choice([10, 11])
